@@ -28,6 +28,7 @@ import numpy as np
 import vlib
 from vlib import cz, cnat, clist
 import tx_c07_superop as tx
+import tx_c07_kernels as txk
 
 HEADER_BR = ("From Coq Require Import List ZArith Bool.\nImport ListNotations.\n"
              "From QV Require Import Model.C07_br.\nLocal Open Scope Z_scope.\n")
@@ -1267,7 +1268,16 @@ def run(ctx):
         "Bloch-Redfield: eigen-decomposition (_EigenBasisTransform) is outside the model "
         "[NUM]; exact runs use diagonal integer H; _br_term_sparse loop-skipping and the "
         "secular mask of _br_term_data are checked by the oracle only (not under a theorem)",
-        "MathComp 1.15 (ssreflect, algebra, real_closed.mxtens)"]
+        "translator tools/tx_c07_kernels.py: the Cython loop kernels are read after stripping "
+        "cdef declarations and casts; statement shapes are matched exactly (pre-sum nest, "
+        "four-fold element nest, store index a*nrows+b / c*nrows+d, zero-initialised buffers); "
+        "`fabs(x) < cutoff` is the abstract predicate `near x` over an abelian group of skew "
+        "values (exact arithmetic: floating-point skew differences and borderline cut-offs are "
+        "outside); the loop-skipping devices of the sparse kernels (break, d_min) are checked "
+        "textually but NOT modelled (sparse = dense is an oracle check); "
+        "_EigenBasisTransform: V = evecs(t) and _inv(t) = V.adjoint() (eigen-decomposition "
+        "itself is LAPACK)",
+        "MathComp 1.15 (ssreflect, algebra, real_closed.mxtens), mathcomp.algebra_tactics (ring)"]
 
     def oracle_all(budget=1.0):
         q = ctx.quick
@@ -1283,8 +1293,12 @@ def run(ctx):
                            "lindblad_dissipator/liouvillian/_br_term_data", True)
         ctx.sample({"generated_term": "liouvillian_data",
                     "coq": tx.coq(terms["liouvillian_data"])[:600]})
+        txk.generate()
+        ctx.add_obligation("translator:tx_c07_kernels covers _br_term_dense/_sparse, "
+                           "_br_cterm_dense/_sparse, the secular masks, _br_cterm_data and "
+                           "the tensor/operator branches of to_eigbasis/from_eigbasis", True)
     except tx.Unsupported as ex:
-        ctx.add_obligation("translator:tx_c07_superop", False)
+        ctx.add_obligation("translator:tx_c07_superop/tx_c07_kernels", False)
         before = len(ctx.violations)
         # implementation-level oracle only (no generated terms to compare)
         oracle_all()
@@ -1300,7 +1314,8 @@ def run(ctx):
         oracle_all(0.5)
 
     nviol = len(ctx.violations)
-    ok = vlib.standard_proof_step(ctx, ["Props/C07.vo"], ["Props/C07.v"], search)
+    ok = vlib.standard_proof_step(ctx, ["Props/C07.vo", "Props/C07_kernels.vo"],
+                                  ["Props/C07.v", "Props/C07_kernels.v"], search)
     if not ok and len(ctx.violations) == nviol:
         # the search met only listed findings: the broken proof must still fail the run
         ctx.violation("proof:C07", "theorems-no-longer-check",
@@ -1317,8 +1332,14 @@ def run(ctx):
                                "QV.Props.C07"], timeout=930, cwd=vlib.COQ)
         good = rc == 0 and "Axioms: <none>" in out
         ctx.add_obligation("coqchk QV.Props.C07 (Axioms: <none>)", good)
+        if good:
+            with vlib.Lock("coq"):
+                rc, out = vlib.sh(["timeout", "900", "coqchk", "-silent", "-o", "-Q", ".", "QV",
+                                   "QV.Props.C07_kernels"], timeout=930, cwd=vlib.COQ)
+            good = rc == 0 and "Axioms: <none>" in out
+            ctx.add_obligation("coqchk QV.Props.C07_kernels (Axioms: <none>)", good)
         if not good:
-            ctx.violation("proof:coqchk", "Props/C07", "coqchk does not accept Props/C07.vo",
+            ctx.violation("proof:coqchk", "Props/C07", "coqchk does not accept Props/C07.vo / Props/C07_kernels.vo",
                           {"log": out[-2000:]}, found_input=False)
     replay_witness(ctx)
     ctx.cov["input_distribution"] = dist
